@@ -301,7 +301,7 @@ def iloc_cases(ctx):
                 share = retain and (sum(sizes) % 2 == 0)
                 specs.append(make_spec(axis, retain, sizes, n_opp=2 + (len(sizes) % 2), share_labels=share,
                                        int_labels=(len(sizes) == 2)))
-    per_spec = ctx.n(48, 700)
+    per_spec = ctx.n(48, 500)
     for spec in specs:
         n = spec.n()
         q, frames = make_quilt(spec, ctx.rng)
@@ -673,7 +673,7 @@ def window_cases(ctx):
         q, frames = make_quilt(spec, ctx.rng)
         qlit = spec.coq()
         n = spec.n()
-        params = grid if len(grid) <= ctx.n(18, 150) else ctx.rng.sample(grid, ctx.n(18, 150))
+        params = grid if len(grid) <= ctx.n(18, 100) else ctx.rng.sample(grid, ctx.n(18, 100))
         for j, (size, step, sized, lshift, sshift, sinc) in enumerate(params):
             for along_sel in ((True, False) if j % 4 == 0 else (True,)):
                 as_array = (j % 3 == 1)
@@ -752,7 +752,7 @@ def store_cases(ctx):
                 store.read_many = read_many
                 shape = q.shape            # builds the axis map: walks the whole Bus once
                 last = frames[-1][0]
-                keys = [kk for kk in sample_keys(ctx, n, ctx.n(8, 60)) if kk is not None] + [None]
+                keys = [kk for kk in sample_keys(ctx, n, ctx.n(8, 40)) if kk is not None] + [None]
                 for sel in keys:
                     ps = key_positions(sel, n)
                     finding = classify_ps(spec, ps, sel is None)
@@ -1005,8 +1005,8 @@ def batch_cases(ctx):
     sets = batch_frame_sets()
     chains = [[i] for i in range(len(ops))]
     pairs = [[i, j] for i in range(len(ops)) for j in range(len(ops))]
-    chains += ctx.rng.sample(pairs, ctx.n(40, 700))
-    for _ in range(ctx.n(30, 500)):
+    chains += ctx.rng.sample(pairs, ctx.n(40, 500))
+    for _ in range(ctx.n(30, 350)):
         chains.append([ctx.rng.randrange(len(ops)) for _ in range(3)])
     variants = [dict(), dict(max_workers=2, use_threads=True), dict(max_workers=3, use_threads=True, chunksize=2)]
     set_names = sorted(sets)
